@@ -4,7 +4,8 @@
    quantifies over the finite enumeration `trees_upto N` and is evaluated by the kernel. *)
 From Coq Require Import List Arith Permutation.
 From PTN Require Import Tree.RTree Tree.RTreeProofs Tree.Nav Tree.NavProofs
-     Tree.UpdatePath Tree.UpdatePathProofs Tree.CachePath Tree.CachePathProofs Tree.Enum Tree.EnumProofs.
+     Tree.UpdatePath Tree.UpdatePathProofs Tree.CachePath Tree.CachePathProofs Tree.Enum Tree.EnumProofs
+     Tree.Crossings.
 Import ListNotations.
 
 (* ---- linearise: permutation of the nodes, children before parents, root last -------- *)
@@ -131,6 +132,22 @@ Theorem C17_update_path_crossings_bounded_11 : forall t, In t (trees_upto 11) ->
               forall e, In e (edges t) -> crossings e w <= 2.
 Proof. exact crossings_bounded_11. Qed.
 Print Assumptions C17_update_path_crossings_bounded_11.
+
+(* ... and the UNIVERSAL statement (every tree with unique identifiers): walking the update
+   path along tree paths crosses no edge more than twice (Tree/Crossings.v) *)
+Theorem C17_update_path_crossings : forall t, NoDup (ids t) ->
+  exists p w, update_path t = Some p /\ walk_edges t p = Some w /\
+              forall e, In e (edges t) -> crossings e w <= 2.
+Proof. exact update_path_crossings. Qed.
+Print Assumptions C17_update_path_crossings.
+
+(* the reason: the nodes below any edge (p, c) form ONE contiguous block of the update path *)
+Theorem C17_update_path_subtree_block : forall t p c, NoDup (ids t) -> In (p, c) (edges t) ->
+  exists path s, update_path t = Some path /\ subtree c t = Some s /\
+    exists l1 l2 l3, path = l1 ++ l2 ++ l3 /\
+      (forall x, In x l2 -> In x (ids s)) /\ (forall x, In x l1 \/ In x l3 -> ~ In x (ids s)).
+Proof. exact update_path_subtree_block. Qed.
+Print Assumptions C17_update_path_subtree_block.
 
 (* ---- the initial cache ----------------------------------------------------------- *)
 (* init_cache_but_one(left_out = u): exactly one block per edge (as unordered pairs the key
